@@ -15,12 +15,15 @@ from vmon.util import Mon
 from vmon.ref import clusters as rc
 
 ID = 'C31'
-RULE = ('random crystal (all Bravais systems, 2-D/3-D, 1-3 orbits, 1-3 species) or named crystal x random species exclusion '
-        'x order 1..4 x cut-off drawn at random and kept only if no pair distance lies within 1e-4 of it and the '
-        'coordination stays below an order-dependent limit x mobile species with its crys.jumpnetwork (same or a second '
-        'safe cut-off); every 8th case: 2 general-position atoms hugging opposite faces of a skewed cell, order 2, cut-off '
-        '2.6..4.0 shortest lattice vectors; every 8th case: simple named crystal with a cut-off beyond the second shell, order 3-4 (clusters with parallel equal pairs). non-trivial = expansion contains clusters of order >= 2; distinct = (kind or '
-        'name, atoms per species, exclusion, order, number of reference clusters)')
+RULE = ('case slices fixed by the case index (i mod 8): std (5 of 8) = random crystal (all Bravais systems, 2-D/3-D, 1-3 orbits, '
+        '1-3 species) or named crystal x random species exclusion x order 1..4 x cut-off drawn inside a random gap between '
+        'neighbour shells (no pair distance within 1e-4, coordination below an order-dependent limit) x one non-excluded '
+        'species with its crys.jumpnetwork (same or a second safe cut-off); multi = as std but 2-3 species and a forced '
+        'exclusion; long = 2 general-position atoms hugging opposite faces of a skewed cell, order 2, cut-off 2.6..4.0 '
+        'shortest lattice vectors, drawn until a neighbour lies beyond the image range round(cutoff/|a|)+1; dense = simple '
+        'named crystal (alternately 2-D with >= 3 shells and 3-D with >= 2 shells), order 3-4: clusters with parallel equal '
+        'pairs.  thorough: more cases, up to 8 atoms, higher coordination limits.  non-trivial = expansion contains clusters '
+        'of order >= 2; distinct = (kind or name, atoms per species, exclusion, order, number of reference clusters)')
 ASSUMPTIONS = ['cut-offs are at least 1e-4 away from every pair distance (no threshold ties)',
                'reference symmetry operations: independent brute-force space group (lattice automorphisms with entries |n|<=2 x '
                'atom-to-atom translations, tolerance 1e-6); if its order differs from len(crys.G) the operations reported by the '
@@ -44,12 +47,15 @@ REQUIRED_OBS = {'expansions_checked': 20, 'nontrivial_expansions': 15, 'eval:C31
 CASE_TIMEOUT = 300
 CHUNK = 5   # importing onsager.cluster (numba) costs seconds per worker: few, longer-lived workers
 COORD_LIMIT = {1: 10 ** 6, 2: 40, 3: 18, 4: 12}
+COORD_LIMIT_THOROUGH = {1: 10 ** 6, 2: 60, 3: 24, 4: 14}
 SKEWED = ('cubicF', 'cubicF', 'cubicI', 'cubicI', 'rhomb', 'rhomb', 'hex', 'tric', 'tric', 'hex2', 'oblique', 'oblique', 'crect', 'tetI')
 
 
 def cases(tier, seed):
-    n = 48 if tier == 'quick' else 640
-    return [{'seed': seed, 'idx': i, 'hashseed': i % 5, 'mode': 'long' if i % 8 == 3 else ('dense' if i % 8 == 6 else ('multi' if i % 8 == 1 else 'std'))} for i in range(n)]
+    global CHUNK
+    n = 48 if tier == 'quick' else 2400
+    CHUNK = 5 if tier == 'quick' else 20
+    return [{'seed': seed, 'idx': i, 'hashseed': i % 5 if tier == 'quick' else i % 7, 'tier': tier, 'mode': 'long' if i % 8 == 3 else ('dense' if i % 8 == 6 else ('multi' if i % 8 == 1 else 'std'))} for i in range(n)]
 
 
 # ---------------------------------------------------------------------------------------------
@@ -58,8 +64,8 @@ def cases(tier, seed):
 safe = rc.safe
 
 
-def choose_cutoff(geo, allowed, order, rng, kmin=1):
-    return rc.choose_cutoff(geo, allowed, order, rng, COORD_LIMIT, kmin=kmin)
+def choose_cutoff(geo, allowed, order, rng, kmin=1, thorough=False):
+    return rc.choose_cutoff(geo, allowed, order, rng, COORD_LIMIT_THOROUGH if thorough else COORD_LIMIT, kmin=kmin)
 
 
 def beyond_nmax(geo, cutoff, allowed):
@@ -106,7 +112,7 @@ DENSE2 = ('square', 'tria', 'rect')           # third shell, order 3-4: collinea
 DENSE3 = ('sc', 'bcc', 'tet', 'fcc', 'honey', 'hcp', 'b2', 'kagome', 'lieb')
 
 
-def std_setup(rng, dense=False, multi=False):
+def std_setup(rng, dense=False, multi=False, thorough=False):
     r = rng.uniform()
     if (r < 0.2 and not multi) or dense:
         names = (DENSE2 if dense == 2 else DENSE3) if dense else gen.NAMED
@@ -116,7 +122,7 @@ def std_setup(rng, dense=False, multi=False):
     else:
         for t in range(20):
             nchem = int(rng.integers(2, 4)) if multi else int(rng.integers(1, 4))
-            crys, spec = gen.rand_crystal(rng, nchem=nchem, maxatoms=6, norbits=int(rng.integers(2, 4)) if multi else None)
+            crys, spec = gen.rand_crystal(rng, nchem=nchem, maxatoms=8 if thorough else 6, norbits=int(rng.integers(2, 4)) if multi else None)
             if crys.Nchem > 1 or not multi: break
         kind = spec['kind']
     geo = rc.Geometry(crys)
@@ -126,7 +132,7 @@ def std_setup(rng, dense=False, multi=False):
         exclude = sorted(int(x) for x in rng.choice(crys.Nchem, size=k, replace=False))
     allowed = set(c for c in range(crys.Nchem) if c not in exclude)
     order = int(rng.choice([3, 3, 4])) if dense else int(rng.choice([1, 2, 2, 3, 3, 3, 4, 4]))
-    cutoff = choose_cutoff(geo, allowed, order, rng, kmin=(3 if dense == 2 else 2) if dense else 1)
+    cutoff = choose_cutoff(geo, allowed, order, rng, kmin=(3 if dense == 2 else 2) if dense else 1, thorough=thorough)
     desc = {'kind': kind, 'lattice': crys.lattice, 'basis': crys.basis, 'cutoff': cutoff, 'order': order, 'exclude': exclude}
     return crys, geo, cutoff, desc
 
@@ -317,7 +323,7 @@ def run_case(case):
             return mon.result(sample=None, nontrivial=False)
         mon.tag('longcutoff')
     else:
-        setup = std_setup(rng, dense=(2 if (case['idx'] // 8) % 2 == 0 else 3) if case.get('mode') == 'dense' else 0, multi=case.get('mode') == 'multi')
+        setup = std_setup(rng, dense=(2 if (case['idx'] // 8) % 2 == 0 else 3) if case.get('mode') == 'dense' else 0, multi=case.get('mode') == 'multi', thorough=case.get('tier') == 'thorough')
     crys, geo, cutoff, desc = setup
     desc['hashseed'] = case.get('hashseed')
     order, exclude = desc['order'], desc['exclude']
@@ -357,7 +363,7 @@ def run_case(case):
     # ---- vacancy and transition-state clusters (not for the long cut-off slice: sets get large) ----
     if case.get('mode') != 'long' and len(ref) <= 2500 and allowed:
         chem = sorted(allowed)[int(rng.integers(len(allowed)))]
-        jcut = cutoff if rng.uniform() < 0.6 else choose_cutoff(geo, {chem}, 2, rng)
+        jcut = cutoff if rng.uniform() < 0.6 else choose_cutoff(geo, {chem}, 2, rng, thorough=case.get('tier') == 'thorough')
         jd = geo.pair_distances({chem}, jcut + 0.1)
         if not safe(jd, jcut): jcut = cutoff
         jn = None
